@@ -297,6 +297,32 @@ theorem wrappingMul_value (a b : I256) (ha : a.WF) (hb : b.WF) :
   generalize (alo : Int) * bhi = S at *
   omega
 
+/-! ### ingredients of `checked_mul` -/
+
+/-- the unsigned magnitude held by `wrapping_abs` (high limb read as `u128`) is `|a|` -/
+theorem absU (a : I256) (ha : a.WF) :
+    a.wrappingAbs.lo < 2 ^ 128 ∧ asU128 a.wrappingAbs.hi < 2 ^ 128 ∧
+    ((asU128 a.wrappingAbs.hi * 2 ^ 128 + a.wrappingAbs.lo : Nat) : Int) = (if a.value < 0 then -a.value else a.value) ∧
+    (a.wrappingAbs.hi = 0 ↔ asU128 a.wrappingAbs.hi = 0) := by
+  have h := wrappingAbs_value a ha
+  generalize a.wrappingAbs = l at *
+  obtain ⟨llo, lhi⟩ := l
+  obtain ⟨alo, ahi⟩ := a
+  simp only [I256.WF, I256.value, wrap256, asU128] at *
+  by_cases hn : ahi * 2 ^ 128 + (alo : Int) < 0
+  · simp only [hn, ↓reduceIte] at h ⊢
+    omega
+  · simp only [hn, ↓reduceIte] at h ⊢
+    omega
+
+theorem sa_mask (x : Int) (hx : -(2^127 : Int) ≤ x ∧ x < 2^127) :
+    asU128 (x >>> 127) = if x < 0 then 2 ^ 128 - 1 else 0 := by
+  rw [sar127 x hx]
+  split
+  · decide
+  · decide
+
+
 /-! ## §2 native widths -/
 
 def stdWidths : List Nat := [8, 16, 32, 64, 128]
